@@ -21,6 +21,7 @@ import (
 	"io"
 	"os"
 	"path"
+	"path/filepath"
 	"runtime"
 	"sort"
 	"strings"
@@ -326,6 +327,18 @@ func fileCompressWorker(tasks <-chan fileCompressTask, cancel <-chan bool, resul
 	}
 }
 
+// relativeName returns the path of file relative to directory dir. The file
+// list is built by filepath.Walk, which reports cleaned paths, whereas dir is
+// spelled as the user typed it ("./dir", "dir//", "." ...): the two do not
+// necessarily share a textual prefix.
+func relativeName(file, dir string) string {
+	if rel, err := filepath.Rel(dir, file); err == nil {
+		return rel
+	}
+
+	return filepath.Base(file)
+}
+
 // Compress is the main function to compress the files or files based on the
 // input name provided at construction. Files may be processed concurrently
 // depending on the number of jobs provided at construction.
@@ -530,7 +543,7 @@ func (this *BlockCompressor) Compress() (int, uint64) {
 			if len(oName) == 0 {
 				oName = iName + ".knz"
 			} else if inputIsDir == true && specialOutput == false {
-				oName = formattedOutName + iName[len(formattedInName):] + ".knz"
+				oName = formattedOutName + relativeName(iName, formattedInName) + ".knz"
 			}
 		}
 
@@ -562,7 +575,7 @@ func (this *BlockCompressor) Compress() (int, uint64) {
 			if len(oName) == 0 {
 				oName = iName + ".knz"
 			} else if inputIsDir == true && specialOutput == false {
-				oName = formattedOutName + iName[len(formattedInName):] + ".knz"
+				oName = formattedOutName + relativeName(iName, formattedInName) + ".knz"
 			}
 
 			taskCtx := make(map[string]any)
